@@ -12,7 +12,8 @@ Statement-by-statement mirror of `maintain`, `idle_check`, `fetch_and_update`,
 * Time is nanoseconds since the epoch (`Nat`); the worker's `SystemTime::now()` is the `now` argument
   of each operation (the hooks inject it).
 * The policy is an arbitrary predicate `allowed : Path → Bool` (`PathStrategy::predicate`).
-* f32 scores are never computed here.  Each operation takes the total score the real scorer assigns
+* f32 scores are never computed here (the one f32 operation of the control flow, the subtraction in
+  `decide_active_path_update`, is `f32Round` of the exact difference).  Each operation takes the total score the real scorer assigns
   at that operation's `now` as a map `Fp → Int` (unit 2^-149, exact for every finite f32):
   `maintain` takes `sc0` (scores as they are) and `sc1` (scores after the issue notifications still
   queued for this path set have been ingested, which is what happens inside `update_path_cache`
@@ -203,12 +204,28 @@ def baseDecision (active : Option Path) (now thr : Nat) : Decision :=
     else if checkExpiry a now thr = .near then .replace
     else .forceReplace
 
+/-- smallest `e ≥ e0` with `a / 2^e < 2^24` (fuel-bounded; scores are below 2^278 units) -/
+def f32Exp : Nat → Nat → Nat → Nat
+  | 0, _, e => e
+  | fuel + 1, a, e => if a / 2 ^ e < 2 ^ 24 then e else f32Exp fuel a (e + 1)
+
+/-- the f32 nearest to the exact value `x` (unit 2^-149, round to nearest, ties to even): what the
+    f32 subtraction `best_score - active_score` of two finite f32 values yields (IEEE 754; the grid
+    below 2^24 units – subnormals and the first normal binade – is exact; no overflow for scores) -/
+def f32Round (x : Int) : Int :=
+  let a := x.natAbs
+  let e := f32Exp 400 a 0
+  let q := a / 2 ^ e
+  let r := a % 2 ^ e
+  let q' := if 2 ^ e < 2 * r ∨ (2 ^ e = 2 * r ∧ q % 2 = 1) then q + 1 else q
+  if x < 0 then -((q' * 2 ^ e : Nat) : Int) else ((q' * 2 ^ e : Nat) : Int)
+
 /-- "If no reason to change, and we have a best path, check if there is a reason to switch"; the
     Boolean reports the `debug_assert!(false, "failed to find active path entry …")` -/
 def swapCheck (env : Env) (s : St) (sc : Nat → Int) (best : Option Path) : Decision × Bool :=
   match best, activeEntry s with
   | some b, some ae =>
-    (if env.cfg.swapThreshold < sc b.fp - sc ae.fp then .replace else .noChange, false)
+    (if env.cfg.swapThreshold < f32Round (sc b.fp - sc ae.fp) then .replace else .noChange, false)
   | some _, none => (.noChange, true)
   | none, _ => (.noChange, false)
 
